@@ -79,57 +79,114 @@ def exporter_table(p: Program, method: str) -> tuple[FunctionInfo, str, list[Exp
     return fn, cname, out
 
 
-def importer_table(p: Program, method: str, obj_ctor: str) -> tuple[FunctionInfo, list[ImportEntry], set[str]]:
-    """`if key == "k": obj.attr = conv(value)` chains of FllImporter.<method>.
+def importer_table(p: Program, method: str, obj_ctor: str, extra_keys: set[str] | None = None) -> tuple[FunctionInfo, list[ImportEntry], set[str]]:
+    """What FllImporter.<method> does with each `key: value` line, found by interpretation (sa/absexec.py), not by reading the shape of the
+    code: the method is run on a block made of the header line alone and then of the header plus one `key: <V>` line, for every candidate key
+    (the string constants of the importer class, plus `extra_keys`), with the value parsers (`boolean`, `range`, `tnorm`, ..., `to_float`,
+    `Rule.create`) replaced by recorders. An attribute of the component that differs between the two runs is what the key assigns
+    (or, for a list, appends to), and the recorder that produced the value is the conversion.
 
-    Returns (fn, entries, keys that are tested at all).
+    Returns (fn, entries, keys the method accepts).
     """
+    from .absexec import AbsExec, Internal, MObj, Opaque, Raised, Unknown, _Return
+
     fn = p.func(f"FllImporter.{method}")
-    r = Resolver(p, fn)
-    cfg = r.cfg
+    imp = p.cls("FllImporter")
+    node = fn.node
+    params = [a.arg for a in node.args.args]
+    parsers = ("boolean", "range", "tnorm", "snorm", "defuzzifier", "activation", "term", "rule")
+    consts = {c.value for m in imp.methods.values() for c in ast.walk(m.node) if isinstance(c, ast.Constant) and isinstance(c.value, str)
+              and c.value and " " not in c.value and ":" not in c.value and len(c.value) < 40}
+    keys = sorted(consts | set(extra_keys or ()))
+    header = obj_ctor
+    VALUE = "<V>"
+
+    def parsed(conv: str, arg: object) -> MObj:
+        return MObj("Parsed", {"conv": conv, "arg": arg, "__bool__": True})
+
+    def run(lines: list[str], component: str | None = None) -> tuple[dict | None, str | None]:
+        created: list[MObj] = []
+
+        def ctor(cls: str):  # type: ignore[no-untyped-def]
+            def construct(ex_, e, args, kw):
+                o = MObj(cls, {"name": "", "description": "", "terms": [], "rules": [], "input_variables": [], "output_variables": [], "rule_blocks": [],
+                               "__class__": MObj("class", {"__name__": cls})})
+                created.append(o)
+                return o
+            return construct
+
+        hooks = {f"method:{nm}": (lambda ex_, e, recv, args, kw, nm=nm: parsed(nm, args[0] if args else None)) for nm in parsers}
+        if method == "_process":  # the components of an engine are read by the methods of their own
+            for nm in ("input_variable", "output_variable", "rule_block"):
+                hooks[f"method:{nm}"] = lambda ex_, e, recv, args, kw, nm=nm: parsed(nm, args[0] if args else None)
+        hooks["method:strip_comments"] = lambda ex_, e, recv, args, kw: args[0]
+        hooks["method:as_identifier"] = lambda ex_, e, recv, args, kw: args[0]
+        hooks["method:create"] = lambda ex_, e, recv, args, kw: parsed("rule", args[0] if args else None)
+        ex = AbsExec(fn.qualname, hooks, helpers={k: v for k, v in imp.methods.items() if k not in parsers and k != method and k not in ("engine", "from_string")})
+        ex.concrete_strings = True
+        ex.globals = {"InputVariable": ctor("InputVariable"), "OutputVariable": ctor("OutputVariable"), "RuleBlock": ctor("RuleBlock"), "Engine": ctor("Engine"),
+                      "Op": Opaque("Op"), "Rule": Opaque("Rule"), "to_float": lambda ex_, e, args, kw: parsed("to_float", args[0]), "nan": float("nan"), "inf": float("inf")}
+        me = MObj("FllImporter", {"separator": "\n"})
+        if method == "_process":
+            target = ctor("Engine")(None, None, [], {})
+            env = {params[0]: me, params[1]: component or obj_ctor, params[2]: list(lines), params[3]: target}
+        else:
+            env = {params[0]: me, params[1]: "\n".join(lines), **({params[2]: None} if len(params) > 2 else {})}
+        try:
+            try:
+                ex.block(list(node.body), env)
+            except _Return:
+                pass
+        except Raised as r_:
+            return None, r_.cls
+        except (Internal, Unknown):
+            return None, "?"
+        objs = [o for o in created if o.cls == obj_ctor]
+        if not objs:
+            return None, "?"
+        return {k: (list(v) if isinstance(v, list) else v) for k, v in objs[0].fields.items()}, None
+
+    base, err = run([f"{header}: v"])
+    if base is None:
+        raise AnalysisError(f"FllImporter.{method}: a block made of its header line alone cannot be interpreted ({err})")
+    base0, _ = run([f"{header}: w"])
     entries: list[ImportEntry] = []
     tested: set[str] = set()
-
-    def key_of(n) -> str | None:
-        ks = []
-        for g, pol, gn in cfg.must_guards(n):
-            t = r.term(g, gn)
-            if t[0] == "cmp" and t[1] == ("==",) and pol:
-                consts = [x[1] for x in t[2] if x[0] == "const" and isinstance(x[1], str)]
-                if consts:
-                    ks.append(consts[0])
-        return ks[-1] if ks else None
-
-    for n in cfg.stmt_nodes():
-        if n.kind == "test":
-            t = r.term(n.ast, n)
-            if t[0] == "cmp" and t[1] == ("==",):
-                for x in t[2]:
-                    if x[0] == "const" and isinstance(x[1], str):
-                        tested.add(x[1])
-
-    def conv_of(t: Term) -> str:
-        if t[0] == "call" and t[1][0] == "attr" and t[1][1] == ("param", "self"):
-            return t[1][2]
-        if t[0] == "call" and t[1][0] == "global":
-            return t[1][1].split(".")[-1]
-        return "raw"
-
-    def is_obj(t: Term) -> bool:
-        alts = t[1] if t[0] == "phi" else [t]
-        return any(a[0] == "call" and a[1][0] == "global" and a[1][1].endswith("." + obj_ctor) for a in alts) or t == ("param", "engine")
-
-    for n in cfg.stmt_nodes():
-        k = key_of(n)
-        if k is None:
+    line = node.lineno
+    if base0 is not None:
+        for a in base:
+            if base[a] == "v" and base0.get(a) == "w":
+                entries.append(ImportEntry(header, a, "raw", line))
+                tested.add(header)
+    for k in keys:
+        if k == header:
             continue
-        for tg in cfg.stores_at(n):
-            if isinstance(tg, ast.Attribute) and is_obj(r.term(tg.value, n)):
-                entries.append(ImportEntry(k, tg.attr, conv_of(r.term(n.ast.value, n)), n.lineno))  # type: ignore[union-attr]
-        for c in cfg.calls_in(n):
-            if isinstance(c.func, ast.Attribute) and c.func.attr == "append" and isinstance(c.func.value, ast.Attribute) and \
-                    is_obj(r.term(c.func.value.value, n)) and c.args:
-                entries.append(ImportEntry(k, c.func.value.attr, conv_of(r.term(c.args[0], n)), n.lineno, "append"))
+        got, err = run([f"{header}: v", f"  {k}: {VALUE}"])
+        if got is None:
+            if err not in ("SyntaxError",):
+                tested.add(k) if err not in ("?",) else None
+            continue
+        tested.add(k)
+        for a, v in got.items():
+            if a.startswith("__") or v == base.get(a) or (isinstance(v, MObj) and isinstance(base.get(a), MObj) and v.cls == base[a].cls == "class"):
+                continue
+            if isinstance(v, list):
+                new_items = v[len(base.get(a) or []):] if isinstance(base.get(a), list) else v
+                for it in new_items:
+                    entries.append(ImportEntry(k, a, it.fields["conv"] if isinstance(it, MObj) and it.cls == "Parsed" else "raw", line, "append"))
+                continue
+            conv = v.fields["conv"] if isinstance(v, MObj) and v.cls == "Parsed" else ("raw" if v == VALUE else "other")
+            entries.append(ImportEntry(k, a, conv, line))
+    if method == "_process":
+        for comp in ("InputVariable", "OutputVariable", "RuleBlock"):
+            got, err = run([f"{comp}: v"], component=comp)
+            if got is None:
+                continue
+            tested.add(comp)
+            for a, v in got.items():
+                if isinstance(v, list) and len(v) > len(base.get(a) or []):
+                    for it in v[len(base.get(a) or []):]:
+                        entries.append(ImportEntry(comp, a, it.fields["conv"] if isinstance(it, MObj) and it.cls == "Parsed" else "raw", line, "append"))
     return fn, entries, tested
 
 
